@@ -52,12 +52,18 @@ def case_strategy():
                                   'relay': st.sampled_from(['', '/came/from?x=1&y=2']),
                                   # the SP's documented clock-skew allowance, and how the IdP gets the subject identifier: handed over ready-made, or built by its
                                   # identifier store from a NameIDPolicy (long-lived IdP, few users, several formats)
-                                  'slack': st.sampled_from([None, None, 0, 180]), 'acs_index': st.sampled_from([False, False, True]), 'tz': st.sampled_from([None, None, None, 'PST8', 'JST-9']), 'policy': st.sampled_from([False, False, True]),
+                                  'slack': st.sampled_from([None, None, 0, 180]), 'acs_index': st.sampled_from([False, False, True]), 'tz': st.sampled_from([None, None, None, 'PST8', 'JST-9']), 'policy': st.sampled_from([False, False, True, 'L1', 'L2', 'L3', 'L4']),
+                                  # PEFIM: the attributes travel in an encrypted advice assertion (alone or inside an assertion that is encrypted as well)
+                                  'pefim': st.sampled_from([False, False, False, True]),
                                   'nid_policy': st.one_of(st.none(), st.none(), st.tuples(st.sampled_from(['user-a', 'user-b']), st.integers(0, 2)).map(list))})
 
 
 POLICY = {'default': {'lifetime': {'minutes': 5}, 'nameid_format': 'urn:oasis:names:tc:SAML:2.0:nameid-format:persistent'},
           spside.SP: {'attribute_restrictions': None}}     # the SP's own section says nothing about lifetime: the operator's default applies
+
+
+# assertion lifetimes an operator may configure (timedelta keywords) and what they amount to in seconds
+LIFETIMES = {True: ({'minutes': 5}, 300), 'L1': ({'days': 1, 'hours': 2}, 93600), 'L2': ({'hours': 36}, 129600), 'L3': ({'weeks': 2, 'minutes': 5}, 1209900), 'L4': ({'days': 7}, 604800)}
 
 
 def pair(opts, slack=None, acs_index=False, policy=False):
@@ -69,7 +75,7 @@ def pair(opts, slack=None, acs_index=False, policy=False):
                                            # endpoints in the documented (url, binding) or (url, binding, index) form
                                            'acs': [(spside.ACS_POST, world.POST, 0), (spside.ACS_REDIRECT, world.REDIRECT, 1), ('https://sp.verif.example/acs/soap', world.SOAP, 2)] if acs_index else
                                                   [(spside.ACS_POST, world.POST), (spside.ACS_REDIRECT, world.REDIRECT), ('https://sp.verif.example/acs/soap', world.SOAP)]},
-                                          {'policy': POLICY} if policy else None)
+                                          {'policy': dict(POLICY, default=dict(POLICY['default'], lifetime=LIFETIMES[policy][0]))} if policy else None)
         clock.install()
         _pairs[key] = (sp, idp)
     return _pairs[key]
@@ -141,7 +147,7 @@ def _run(case):
     if wors and not (sr or sa):
         sr = True
     binding = case['binding']
-    sp, idp = pair(case['opts'], case.get('slack'), bool(case.get('acs_index')), bool(case.get('policy')))
+    sp, idp = pair(case['opts'], case.get('slack'), bool(case.get('acs_index')), case.get('policy') or False)
     clock.set_now(NOW)
     identity = dict((k, list(v)) for k, v in case['identity'].items())
     n = case['name_id']
@@ -160,13 +166,15 @@ def _run(case):
         kw['name_id_policy'] = samlp.NameIDPolicy(format=POLICY_FORMATS[pol[1]], allow_create='true', sp_name_qualifier=spside.SP)
     if case['session'] is not None:
         kw['session_not_on_or_after'] = build.ts(NOW + case['session'])
+    if case.get('pefim'):
+        kw['pefim'] = True
     try:
         resp = idp.create_authn_response(dict(identity), **kw)
     except Exception as e:
         raise Violation('idp-cannot-build', 'create_authn_response raised %s: %s' % (type(e).__name__, str(e)[:200]))
     xml = str(resp)
     special = any(re.search(u'[<>&"\'\\s]|[^\\x00-\\x7f]', v) for vs in identity.values() for v in vs)
-    label = '%s|%s%s%s' % (binding, 'R' if sr else '', 'A' if sa else '', 'E' if enc else '') + ('|special' if special else '')
+    label = '%s|%s%s%s' % (binding, 'R' if sr else '', 'A' if sa else '', 'E' if enc else '') + ('|special' if special else '') + ('|pefim' if case.get('pefim') else '')
     try:
         got = deliver_via(idp, sp, binding, xml, case['relay'], {case['irt']: '/came/from'})
     except Violation:
@@ -206,8 +214,9 @@ def _run(case):
     ai = got.authn_info()
     if not ai or ai[0][0] != case['class_ref']:
         raise Violation('authn-context-differs', 'asserted %r read %r' % (case['class_ref'], ai))
-    if case['session'] is None and case.get('policy') and si['not_on_or_after'] != NOW + 300:
-        raise Violation('session-expiry-differs', 'the release policy gives assertions a lifetime of 5 minutes, the SP reads an expiry of now%+d s' % (si['not_on_or_after'] - NOW))
+    if case['session'] is None and case.get('policy') and si['not_on_or_after'] != NOW + LIFETIMES[case['policy']][1]:
+        raise Violation('session-expiry-differs', 'the release policy gives assertions a lifetime of %r (%d s), the SP reads an expiry of now%+d s'
+                        % (LIFETIMES[case['policy']][0], LIFETIMES[case['policy']][1], si['not_on_or_after'] - NOW))
     if case['session'] is not None and si['not_on_or_after'] != NOW + case['session']:
         raise Violation('session-expiry-differs', 'SessionNotOnOrAfter %d read as %r' % (NOW + case['session'], si['not_on_or_after']))
     # ---- values never change the structure
